@@ -18,32 +18,52 @@ def parseQ? : List String → Option Q
   | ["join", v] => do pure (.joinA (← v.toInt?))
   | _ => none
 
+def parseKind? (s : String) : Option Kind :=
+  if s == "q" then some .entity else if s == "cnt" then some .count
+  else if s == "core" then some .core else if s == "ccnt" then some .coreCount
+  else if s == "txt" then some .text else if s == "tcnt" then some .textCount
+  else if s == "ex" then some .existsSel else if s == "exs" then some .existsDot
+  else if s == "lq" then some .legacy else if s == "lcnt" then some .legacyCount else none
+
+def parseVia? (s : String) : Option Via :=
+  if s == "execute" then some .execute else if s == "scalars" then some .scalars
+  else if s == "scalar" then some .scalar else if s == "all" then some .qAll
+  else if s == "first" then some .qFirst else if s == "one" then some .qOne
+  else if s == "count" then some .qCount else none
+
 def parseOp? (tok : String) : Option Op :=
   match tok.splitOn ":" with
   | ["add", t, i, a, p] => do pure (.add (← parseKey? t i) ⟨← a.toInt?, ← parseOptNat? p⟩)
   | ["seta", t, i, v] => do pure (.setA (← parseKey? t i) (← v.toInt?))
   | ["setp", t, i, p] => do pure (.setPid (← parseKey? t i) (← parseOptNat? p))
   | ["del", t, i] => do pure (.del (← parseKey? t i))
-  | "q" :: m :: rest => do pure (.query (← parseQ? rest) (← parseMode? m))
-  | "cnt" :: m :: rest => do pure (.count (← parseQ? rest) (← parseMode? m))
-  | "core" :: m :: rest => do pure (.core (← parseQ? rest) (← parseMode? m))
-  | "lq" :: m :: rest => do pure (.legacy (← parseQ? rest) (← parseMode? m))
-  | "lcnt" :: m :: rest => do pure (.legacyCount (← parseQ? rest) (← parseMode? m))
   | ["get", m, t, i] => do pure (.get (← parseKey? t i) (← parseMode? m))
   | ["kids", m, p] => do pure (.children (← p.toNat?) (← parseMode? m))
   | ["flush"] => some .flush
   | ["commit"] => some .commit
+  | kind :: m :: via :: rest =>
+    -- <kind>:<mode>:<entry point>:<query…>
+    match parseKind? kind, parseVia? via with
+    | some k, some v => do pure (.read k v (← parseQ? rest) (← parseMode? m))
+    | _, _ => none
   | _ => none
 
 def parseOps? (s : String) : Option (List Op) :=
   if s == "-" then some [] else (s.splitOn ",").mapM parseOp?
 
+def showVal : Val → String
+  | .ent i a => toString i ++ "=" ++ toString a
+  | .id i => toString i
+  | .num n => "#" ++ toString n
+  | .flag b => if b then "T" else "F"
+
 def showOut : Out → String
   | .skip => "-"
   | .done => "d"
-  | .rows l => "[" ++ " ".intercalate (l.map (fun (i, a) => toString i ++ "=" ++ toString a)) ++ "]"
-  | .ids l => "{" ++ " ".intercalate (l.map toString) ++ "}"
-  | .num n => "#" ++ toString n
+  | .list l => "[" ++ " ".intercalate (l.map showVal) ++ "]"
+  | .one none => "None"
+  | .one (some v) => "(" ++ showVal v ++ ")"
+  | .multi => "multi"
   | .obj none => "None"
   | .obj (some (a, d)) => "o" ++ toString a ++ (if d then "!" else "")
   | .integrity => "integrity"
